@@ -844,6 +844,10 @@ func replay(path string) int {
 		ck.runtimeEvidence()
 	} else if strings.HasPrefix(doc.Failure.Class, "expiring/") {
 		ck.expiringOracle()
+	} else if strings.HasPrefix(doc.Failure.Class, "history/") {
+		hp, _ := d["history_program"].(string)
+		hs, _ := d["history"].(string)
+		ck.historyOracle(hp, strings.Split(hs, ","))
 	} else if strings.HasPrefix(doc.Failure.Class, "child") {
 		cl := doc.Failure.Class
 		if strings.HasPrefix(cl, "child/") { // transparency classes carry the mode as their last component
@@ -895,6 +899,11 @@ func main() {
 	}
 	ck := &checker{rep: rep}
 	tStart := time.Now()
+	if os.Getenv("C15_HISTORY_ONLY") != "" { // development
+		ck.historyOracle("", nil)
+		rep.Write(o.Out)
+		return
+	}
 	if os.Getenv("C15_CHILD_ONLY") != "" { // development: the child-process family alone (repeated runs under load)
 		ck.childOracle("")
 		rep.Write(o.Out)
@@ -1098,6 +1107,7 @@ func main() {
 
 	ck.expiringOracle()
 	ck.childOracle("")
+	ck.historyOracle("", nil)
 	if o.Tier == "thorough" {
 		ck.runtimeEvidence()
 	}
